@@ -163,6 +163,9 @@ def _cached_from_file(cls_from_file):
             try:
                 hit = ('ok', cls_from_file(filename, *args, **kwargs))
             except Exception as e:  # pylint: disable=broad-except
+                # keep only the exception itself: chained exceptions / tracebacks hold frames (f_back chain up to
+                # lint_files) and with them the linter and its still unflushed output files
+                e.__traceback__ = e.__context__ = e.__cause__ = None
                 hit = ('exc', e)
             _PARSE_CACHE[key] = hit
         if hit[0] == 'exc':
@@ -420,13 +423,15 @@ def explore_case(env, cfgname, W, serial, prefix=(), want_classes=False):
     ex.explore(run)
     st = ex.stats()
     st.update(overlap=info['overlap'], first=info['first'], output_orders=len(info['orders']))
+    if prefix:     # one sub-tree of a split search: the caller has to union the state graphs of the sub-trees
+        st.update(state_set=list(ex.states), edge_set=list(ex.edges))
     return st, [(sig, case, det) for sig, (case, det) in found.items()], list(classes.values())
 
 
 # ------------------------------------------------------------------------------------------
 # forcing an interleaving on the real pool + real Manager
 # ------------------------------------------------------------------------------------------
-def real_forced(env, cfgname, W, trace, assigned_after, model, tag, timeout=40.0):
+def real_forced(env, cfgname, W, trace, assigned_after, model, tag, timeout=45.0):
     """trace: [(label, stem)] with label 'append:L<k>' / 'complete'.  Returns None or a description of the disagreement."""
     nh = 1 + len(CONFIGS[cfgname])
     ctl = str(env.root / f'ctl_{tag}')
@@ -499,9 +504,13 @@ def _unit_explore(item):
             s2 = run_lint(env, item['cfg'], 1, cache=False)
             if observe(s2) != observe(serial) or s2['count'] != serial['count']:
                 extra = f'serial run with and without parse cache differ: {observe(s2)} vs {observe(serial)}'
-        nfiles_reported = len(observe(serial).get('junit', [])) if 'junit' in CONFIGS[item['cfg']] else None
+        if 'junit' in CONFIGS[item['cfg']] and not item.get('prefix'):
+            suites = sorted(f for f, _ in observe(serial)['junit'])
+            if suites != sorted(f'{s}.F90' for s in env.stems):
+                viols.append(('serial run does not report every selected file exactly once [junit]',
+                              dict(kinds=env.kinds, config=item['cfg'], W=1, schedule=[]), f'suites {suites}'))
         return dict(uid=item['uid'], stats=st, viols=viols, classes=classes, serial_count=serial['count'],
-                    serial_obs=observe(serial), harness=extra, junit_suites=nfiles_reported, serial_error=None)
+                    serial_obs=observe(serial), harness=extra, serial_error=None)
     finally:
         shutil.rmtree(env.root, ignore_errors=True)
 
@@ -522,6 +531,10 @@ def _unit_real(item):
         shutil.rmtree(env.root, ignore_errors=True)
 
 
+def _freeze(x):
+    return tuple(_freeze(y) for y in x) if isinstance(x, (list, tuple)) else x
+
+
 def file_sets(n, sequences):
     if sequences:
         return [list(k) for k in itertools.product(KINDS, repeat=n)]
@@ -540,6 +553,8 @@ def run(ctx):
                 for W in (2, 3):
                     cases.append((kinds, cfg, W, 0))
     if not quick:
+        for kinds in file_sets(2, sequences=True):
+            cases.append((kinds, 'DJV', 2, 0))
         for kinds in file_sets(3, sequences=False):
             cases.append((kinds, 'DJV', 2, 0))
             cases.append((kinds, 'DJV', 3, 3))
@@ -550,9 +565,10 @@ def run(ctx):
             for cfg in ('DV', 'DJ'):
                 cases.append((kinds, cfg, 2, 2))
                 cases.append((kinds, cfg, 3, 4))
-    conf_sets = [['several', 'bad'], ['bad', 'one'], ['clean', 'several'], ['one', 'bad', 'several']]
+    conf_sets = [['several', 'bad'], ['bad', 'one'], ['clean', 'several'], ['one', 'several', 'bad']]
     if not quick:
         conf_sets += [['bad', 'clean', 'one'], ['several', 'one', 'clean']]
+    ctx.require(all(any(c[0] == k for c in cases) for k in conf_sets), 'conformance file set is not among the explored cases')
     conf_cfgs = ('D', 'DV', 'DJ') if quick else ('D', 'DV', 'DJ', 'DJV')
 
     # split the big searches into independent sub-trees
@@ -564,8 +580,8 @@ def run(ctx):
     pi = iter(prefixes)
     for ci, (kinds, cfg, W, split) in enumerate(cases):
         want = (kinds in conf_sets and cfg in conf_cfgs and (len(kinds) == 3 or W == 2))
-        if (kinds, cfg) == (['one', 'bad', 'several'], 'DJV') and W == 3:
-            want = False       # 34650 interleavings / 7776 classes: too many to force on the real pool
+        if len(kinds) == 3 and W == 3 and cfg in ('DJ', 'DJV'):
+            want = False       # 216 (DJ) / 7776 (DJV) classes per case; DV covers the two-list case with 3 workers
         if split:
             for p in next(pi):
                 units.append(dict(case=ci, kinds=kinds, cfg=cfg, W=W, prefix=[list(x) for x in p], seed=ctx.seed,
@@ -589,16 +605,18 @@ def run(ctx):
     for u, r in zip(units, results):
         ctx.require(not r.get('serial_error'), f'serial lint run failed on {u["kinds"]}: {r.get("serial_error")}')
         ctx.require(not r.get('harness'), r.get('harness'))
-        if r['junit_suites'] is not None:
-            ctx.require(r['junit_suites'] == len(u['kinds']), f'serial JUnit output has {r["junit_suites"]} suites for {u["kinds"]}')
         for sig, case, det in r['viols']:
             ctx.violation(sig, dict(case, seed=ctx.seed), det)
         st = r['stats']
         serial_runs += 1
         schedules += st['schedules']
         traces += st['distinct_traces']
-        states += st['states']
-        transitions += st['transitions']
+        if 'state_set' in st:
+            per_case[u['case']].setdefault('S', set()).update(map(_freeze, st['state_set']))
+            per_case[u['case']].setdefault('E', set()).update(map(_freeze, st['edge_set']))
+        else:
+            states += st['states']
+            transitions += st['transitions']
         depth = max(depth, st['max_choice_depth'])
         overlap[u['W']] = max(overlap[u['W']], st['overlap'])
         out_orders = max(out_orders, st['output_orders'])
@@ -608,6 +626,9 @@ def run(ctx):
                                 first_schedule=st['first']['schedule'], serial=r['serial_obs']))
         for tr in r['classes']:
             real_items.append(dict(kinds=u['kinds'], cfg=u['cfg'], W=u['W'], trace=tr, seed=ctx.seed, scratch=scratch))
+    for v in per_case.values():
+        states += len(v.get('S', ()))
+        transitions += len(v.get('E', ()))
     for k, it in enumerate(real_items):
         it['uid'] = k
     dev_skip = os.environ.get('VF_DEV_SKIP_REAL')      # development only: the run then ends as HARNESS-ERROR
@@ -637,7 +658,8 @@ def run(ctx):
         schedules_explored=schedules, distinct_traces=traces, max_choice_depth=depth, cases=len(cases),
         serial_reference_runs=serial_runs, largest_case_schedules=max(v['schedules'] for v in per_case.values()),
         conformance=dict(real_pool_interleavings=len(real_items),
-                         selection=f'file sets {conf_sets} x handler configs {list(conf_cfgs)} x W in (2,3): one interleaving per class '
+                         selection=f'file sets {conf_sets} x handler configs {list(conf_cfgs)} x W in (2,3) (3 files with 3 workers: D and DV '
+                                   'only; 2 files: W=2 only): one interleaving per class '
                                    '(order of appends per handler list + completion order), forced through GateHandlers; ordered '
                                    'handler outputs and checked count must equal the model\'s prediction for that interleaving'),
         wall=dict(explore=round(t_explore, 1), real_pool=round(t_real, 1)),
@@ -667,6 +689,9 @@ def replay(case):
     try:
         env = Env(root / 'e', case['kinds'], case.get('seed', 0)).write()
         serial = run_lint(env, case['config'], 1)
+        if case['W'] == 1:
+            suites = sorted(f for f, _ in observe(serial).get('junit', []))
+            return None if suites == sorted(f'{s}.F90' for s in env.stems) else f'serial JUnit suites {suites}'
         r = run_lint(env, case['config'], case['W'], FixedChooser([tuple(c) for c in case['schedule']]))
         v = judge(env, r, serial)
         return '; '.join(f'{s}: {d}' for s, d in v) or None
